@@ -3,6 +3,7 @@
 package main
 
 import (
+	"encoding/json"
 	"flag"
 	"fmt"
 	"os"
@@ -23,6 +24,7 @@ func main() {
 	verif := flag.String("verif", "/verif", "verif directory (evidence, known findings)")
 	goos := flag.String("goos", "", "GOOS for loading")
 	goarch := flag.String("goarch", "", "GOARCH for loading")
+	extraFile := flag.String("extra", "", "JSON object merged into coverage (thorough tier: configurations, sensitivity)")
 	noEvidence := flag.Bool("no-evidence", false, "print the report only (used by the mutant sensitivity runs)")
 	flag.Parse()
 	if *prop == "list" {
@@ -75,6 +77,16 @@ func main() {
 		defer os.RemoveAll(vd)
 	}
 	extra := map[string]any{"goos": *goos, "goarch": *goarch}
+	if *extraFile != "" {
+		if b, err := os.ReadFile(*extraFile); err == nil {
+			var m map[string]any
+			if json.Unmarshal(b, &m) == nil {
+				for k, v := range m {
+					extra[k] = v
+				}
+			}
+		}
+	}
 	code := res.Finish(vd, *tier, seed, time.Since(start).Seconds(), known, extra)
 	if *noEvidence {
 		os.RemoveAll(vd)
